@@ -75,7 +75,7 @@ Definition model_v (H W : nat) (vops : list vop) (vc : vctx) (c : ct) (v : vtree
   | Ok t =>
       match render vc v t (apply_chain (of_size H W) vops) (mkR (init_canvas (H * W)) []) with
       | Ok s =>
-          VRes t (enc_canvas (r_data s)) (r_log s) []
+          VRes t (enc_canvas (r_data s)) (filter (fun e => fst e <? LEAF_TAG) (r_log s)) []
                (map (fun q => find_path (depth t) t (fst q) (snd q)) (grid t))
       | _ => VPanic
       end
@@ -258,7 +258,7 @@ Definition c10_check (cs : c10_case) : bool * bool :=
         && forallb (fun qp : (N * N) * list nat => follows_b (S (depth t)) t (fst (fst qp)) (snd (fst qp)) (snd qp))
                    (combine fgrid paths) )
   | CV exact H W vops glyphs cwt ph pw c v impl =>
-      let vc := mkV (mkCtx glyphs cwt dfa0 []) ph pw in
+      let vc := mkV (mkCtx glyphs cwt dfa0 []) ph pw exact_share (fun i => 1000 + N.of_nat i) in
       ((if exact then vres_eqb (model_v H W vops vc c v) impl else true), holds_v H W vops glyphs c v impl)
   end.
 
